@@ -19,6 +19,7 @@ import CbiVerif.Drv.CodeBase
 import CbiVerif.Drv.Order
 import CbiVerif.Drv.Fortran
 import CbiVerif.Drv.C03
+import CbiVerif.Drv.C03Frag
 import CbiVerif.Drv.Include
 import CbiVerif.Drv.GitIgnore
 import CbiVerif.Drv.Reach
@@ -48,6 +49,7 @@ def handlerTable : List (String × (Json → Json)) :=
   CbiVerif.Drv.Order.handlers ++
   CbiVerif.Drv.Fortran.handlers ++
   CbiVerif.Drv.C03.handlers ++
+  CbiVerif.Drv.C03Frag.handlers ++
   CbiVerif.Drv.Include.handlers ++
   CbiVerif.Drv.GitIgnore.handlers ++
   CbiVerif.Drv.Reach.handlers ++
